@@ -4,6 +4,7 @@ from props.gossip_common import *
 from props.C02 import Tracker, ekey
 
 from props import round_probe
+from props import bulk_probe
 ID = "C03"
 COQ_TARGETS = ["Run/Run_Gossip.vo", "Run/Run_Round.vo"]
 META = {
@@ -230,11 +231,17 @@ def run(ctx):
            "monitor": {"histories": len(cases), "failures": len(mon), "failures_known": len([1 for _, f in mon if f["sig"] in kf])}}
     cov["glue_probes"] = gcov
     cov["peer_selection_model"] = rcov
+    # bulk synchronisation over the datagram path (hundreds to thousands of entries; monitor only)
+    bcov, bv = bulk_probe.run(ctx, ID)
+    cov["bulk_pull"] = bcov
+    violations += bv
     return {"coverage": cov, "violations": violations, "known": known}
 
 
 def replay(path, wd):
     obj = json.load(open(path))
+    if obj.get("kind") == "bulk":
+        return bulk_probe.replay(obj, wd)
     if obj.get("kind") == "members":
         return round_probe.replay(obj, wd)
     case = obj["case"]
